@@ -157,7 +157,7 @@ def examine(case):
 
 def plan(tier, seed):
     if tier == "quick":
-        return [{"n": 400, "grid": False} for _ in range(16)]
+        return [{"n": 1200, "grid": False} for _ in range(16)]
     return [{"n": 10000, "grid": True} for _ in range(16)]
 
 
@@ -188,6 +188,12 @@ def related(r, v):
     return r.choice(opts)
 
 
+def out_of_exact_range(v):
+    """Number literals beyond +-(2^53-1) are outside the I-JSON exact range: a query need not keep their exact
+    value (DESIGN.md section 3, DISPUTED f), so such numbers reach the comparison through the document only."""
+    return isinstance(v, (int, float)) and not isinstance(v, bool) and abs(v) > 2**53 - 1 and abs(v) < 1e300
+
+
 def run_shard(spec, shard):
     def one(r, lk, rk, op, lp, rp):
         lv = r.choice(VALUES[lk]) if lk != "nothing" else None
@@ -203,9 +209,9 @@ def run_shard(spec, shard):
             lp = r.choice(NOTHING_PRODUCERS)
         if rk == "nothing":
             rp = r.choice(NOTHING_PRODUCERS)
-        if lp == "literal" and isinstance(lv, (list, dict)):
+        if lp == "literal" and (isinstance(lv, (list, dict)) or out_of_exact_range(lv)):
             lp = "rel"
-        if rp == "literal" and isinstance(rv, (list, dict)):
+        if rp == "literal" and (isinstance(rv, (list, dict)) or out_of_exact_range(rv)):
             rp = "abs"
         ast, doc = build(lv, rv, op, lp, rp)
         text = Q.Renderer(r, 0.1).query(ast)
